@@ -416,11 +416,12 @@ class Slack:
                 return got
             lin_ = linear(node)
             if lin_ is not None and st.get(("len", lin_[0])) is not None:
-                L_, d_ = st[("len", lin_[0])]
+                L_, d_ = st[("len", lin_[0])][:2]
+                inexact.append(not st[("len", lin_[0])][2])
                 return L_, d_ + lin_[1]
             return None
 
-        upper_only = _LEN_OF(right) is None and _LEN_OF(left) is None  # through an alias only an upper bound of the length side is known
+        inexact: list[bool] = []
         lin, ln = linear(left), _len_of(right)
         if lin is not None and st.get(("len", lin[0])) is not None and ln is None:
             lin = None  # the alias itself on the left: try the mirrored form
@@ -440,8 +441,8 @@ class Slack:
         key = (x, L)
         cur = st.get(key)
         new = None
-        if upper_only and not ((isinstance(op, (ast.Lt, ast.LtE)) and truth) or (isinstance(op, (ast.Gt, ast.GtE)) and not truth)):
-            return  # `x == end`, `x != end` say nothing about len(L) when only `end <= len(L) + d` is known
+        if any(inexact) and not ((isinstance(op, (ast.Lt, ast.LtE)) and truth) or (isinstance(op, (ast.Gt, ast.GtE)) and not truth)):
+            return  # `x == end`, `x != end` say nothing about len(L) when only `end <= len(L) + d` is known (paths with different d were joined)
         # normalise to  x + s < len(L)
         if isinstance(op, ast.Lt):  # x + c < len + d  <=> x + (c - d) < len
             new = (c - d) if truth else None
@@ -469,7 +470,7 @@ class Slack:
                 lk = ("len", s.target.id)
                 if lk in st:
                     if st[lk] is not None and c is not None and isinstance(s.op, (ast.Add, ast.Sub)):
-                        st[lk] = (st[lk][0], st[lk][1] + (c if isinstance(s.op, ast.Add) else -c))
+                        st[lk] = (st[lk][0], st[lk][1] + (c if isinstance(s.op, ast.Add) else -c), st[lk][2])
                     else:
                         del st[lk]
                 for key in list(st):
@@ -493,7 +494,7 @@ class Slack:
                             if key[1] == nm:
                                 del st[key]
                         if isinstance(t, ast.Name) and _LEN_OF(s.value) is not None and _LEN_OF(s.value)[0] in self.lists:
-                            st[("len", nm)] = _LEN_OF(s.value)  # nm == len(L) + d, kept as the upper bound nm <= len(L) + d
+                            st[("len", nm)] = (*_LEN_OF(s.value), True)  # nm == len(L) + d exactly (until paths with different d are joined)
                         if isinstance(t, ast.Name) and isinstance(s.value, ast.Call):
                             ret = self._return_slack(n, s.value, dict(st))
                             if ret is not None:
@@ -563,7 +564,7 @@ class Slack:
             va, vb = a[k], b[k]
             if k[0] == "len":
                 if va is not None and vb is not None and va[0] == vb[0]:
-                    out[k] = (va[0], max(va[1], vb[1]))  # name <= len(L) + d on both paths: keep the weaker bound
+                    out[k] = (va[0], max(va[1], vb[1]), va[2] and vb[2] and va[1] == vb[1])  # name <= len(L) + d on both paths: the weaker bound
                 continue
             out[k] = None if va is None or vb is None else min(va, vb)
         return out
